@@ -10,7 +10,8 @@ Model of `VBSClusteringManager` (src/flexstack/facilities/vru_awareness_service/
 * Reasons are the ASN.1 numbers of `ClusterLeaveReason` / `ClusterBreakupReason`.
 * `Variant` selects code variants at three sites: `cpmFrees` (known finding C18-KF1, `false` = the code as it
   is), `hbAny` and `tupleFails` (behaviour before the two `fix:` commits, kept for the `_witness` theorems and so
-  that the harness can still compare against an unrepaired tree); likewise `joinHidesLeave`, `createDuringNotify`.
+  that the harness can still compare against an unrepaired tree); likewise `joinHidesLeave`, `createDuringNotify`,
+  `cancelHidesLeave`.
 * `err` is set where a Python `assert … is not None` would fire; `Props.C18` proves it never does.
 -/
 import Generated.VamConstants
@@ -35,6 +36,9 @@ structure Variant where
   joinHidesLeave : Bool := false
   /-- (old) a cluster can be created while a join/leave notification of the individual VAMs is running -/
   createDuringNotify : Bool := false
+  /-- (old) the notice of a cancelled join takes the `clusterLeaveInfo` slot at once, cutting a running leave
+  notification of the cluster left before short (repaired: the cancelled-join notice is queued behind it) -/
+  cancelHidesLeave : Bool := false
   deriving DecidableEq, Repr, Inhabited
 
 /-- `_ClusterState` -/
@@ -224,7 +228,7 @@ def updLeaveNotify (s : St) : St :=
     | none => { s with err := true }
   else s
 
-def updJoin (s : St) : St :=
+def updJoin (var : Variant) (s : St) : St :=
   match s.joinSub with
   | .notify =>
     match s.joinStarted with
@@ -240,13 +244,16 @@ def updJoin (s : St) : St :=
   | .cancelled | .failed =>
     match s.joinLeaveStarted with
     | some t =>
-      if s.now - t ≥ timeClusterLeaveNotification then
+      -- the one `clusterLeaveInfo` is still taken by the leave notification of the cluster left before:
+      -- the notice of the cancelled join starts (for its full duration) when that one is over
+      if var.cancelHidesLeave = false ∧ s.leaveNotify = true then { s with joinLeaveStarted := some s.now }
+      else if s.now - t ≥ timeClusterLeaveNotification then
         { s with joinSub := .none, joinTarget := none, joinLeaveReason := none, joinLeaveStarted := none }
       else s
     | none => { s with err := true }
   | _ => s
 
-def updStandalone (s : St) : St := updLeaveNotify (updJoin s)
+def updStandalone (var : Variant) (s : St) : St := updLeaveNotify (updJoin var s)
 
 def updLeader (s : St) : St :=
   match s.cluster with
@@ -263,10 +270,10 @@ def updPassive (s : St) : St :=
     if s.now - t ≥ timeClusterContinuity then doLeave s leaveLeaderLost else updLeaveNotify s
   | none => updLeaveNotify s
 
-def update (s : St) : St :=
+def update (var : Variant) (s : St) : St :=
   let s := expire s
   match s.state with
-  | .standalone => updStandalone s
+  | .standalone => updStandalone var s
   | .leader => updLeader s
   | .passive => updPassive s
   | .idle => s
@@ -356,7 +363,7 @@ def step (var : Variant) (s : St) : Op → St × Ret
   | .confirmJoinFailed => (confirmJoinFailed s, none)
   | .leave r => (leave s r, none)
   | .breakup r => breakup s r
-  | .update => (update s, none)
+  | .update => (update var s, none)
   | .recv v => (recv var s v, none)
 
 def run (var : Variant) (s : St) (ops : List Op) : St := ops.foldl (fun s o => (step var s o).1) s
@@ -402,6 +409,7 @@ def standaloneOp (var : Variant) (s : St) : OpOut :=
   if s.joinSub = .notify then
     { join := some (s.joinTarget.getD 0, quarterLeft s.now s.joinStarted timeClusterJoinNotification),
       leave := if var.joinHidesLeave then none else leaveOut s }
+  else if var.cancelHidesLeave = false ∧ s.leaveNotify = true then { leave := leaveOut s }
   else if s.joinSub = .cancelled ∨ s.joinSub = .failed then
     { leave := some (s.joinTarget.getD 0, s.joinLeaveReason.getD leaveNotProvided) }
   else { leave := leaveOut s }
@@ -421,6 +429,22 @@ def opContainer (var : Variant) (s : St) : Option OpOut :=
                                 quarters (timeClusterBreakupWarning - (s.now - t))) }
       | none => none
   | .idle => none
+
+/-- the operation container as the peer's decoder returns it (cluster ids and the break-up reason; the time fields
+are not read by `_process_received_vam`) -/
+def OpOut.toOpC (o : OpOut) : OpC :=
+  { join := o.join.map (·.1), leave := o.leave.map (·.1), breakup := o.breakup.map (·.1) }
+
+/-- THE VAM A STATION PUTS ON THE AIR, as far as the peers' clustering managers read it: sender and position are the
+station's own, the two cluster containers are exactly what `get_cluster_information_container()` /
+`get_cluster_operation_container()` return (`VAMTransmissionManagement` attaches them unchanged; the information
+container always carries a circular bounding box).  `none` when the station may not transmit. -/
+def emitVam (var : Variant) (sid : Nat) (x y : Int) (s : St) : Option Vam :=
+  if shouldTransmit s then
+    some { sender := sid, x := x, y := y,
+           info := (infoContainer s).map (fun c => { cid := some c.1, card := c.2.2.1, shape := .circular }),
+           op := (opContainer var s).map OpOut.toOpC }
+  else none
 
 def clusterId (s : St) : Option Nat :=
   match s.state, s.cluster with
